@@ -177,17 +177,28 @@ class Type1Tag(Tag):
                     offset += 1
                     continue
 
-                tlv_t, tlv_l, tlv_v = read_tlv(tag_memory, offset, skip_bytes)
+                try:
+                    tlv = read_tlv(tag_memory, offset, skip_bytes)
+                    tlv_t, tlv_l, tlv_v = tlv
+                except Type1TagCommandError:
+                    log.debug("tlv at address {0} is unreadable".format(offset))
+                    return None
                 log.debug("tlv type {0} at address {1}".format(tlv_t, offset))
 
                 if tlv_t == 0x00:
                     pass
                 elif tlv_t == 0x01:
-                    lock_bytes = get_lock_byte_range(tlv_v)
-                    skip_bytes.update(range(*lock_bytes.indices(0x800)))
+                    if tlv_l == 3:
+                        lock_bytes = get_lock_byte_range(tlv_v)
+                        skip_bytes.update(range(*lock_bytes.indices(0x800)))
+                    else:
+                        log.debug("lock tlv has wrong length")
                 elif tlv_t == 0x02:
-                    rsvd_bytes = get_rsvd_byte_range(tlv_v)
-                    skip_bytes.update(range(*rsvd_bytes.indices(0x800)))
+                    if tlv_l == 3:
+                        rsvd_bytes = get_rsvd_byte_range(tlv_v)
+                        skip_bytes.update(range(*rsvd_bytes.indices(0x800)))
+                    else:
+                        log.debug("memory tlv has wrong length")
                 elif tlv_t == 0x03:
                     ndef = tlv_v
                     break
